@@ -93,3 +93,19 @@ CHECKS['C07'] = dict(
              plan={'quick': 'branchy=4000', 'thorough': 'branchy=200000'}, timeout={'quick': 1800, 'thorough': 6 * 3600}),
     ],
 )
+
+GUARD_LD = ['-Wl,--wrap=posix_memalign', '-Wl,--wrap=free', '-Wl,--wrap=mmap', '-Wl,--wrap=munmap', '-Wl,--wrap=mprotect']
+CHECKS['C06'] = dict(
+    level='exploration',
+    rule='adversarial ProgramGen shapes (saturated: one instruction type with its longest encoding in all 384 slots, store-L3, fp-heavy incl. v2 CFROUND, branchy, natural) with '
+         'extreme configuration blocks (dataset offset = max with ma = last line so the first read is the last dataset item; all address-register choices) x all scratchpad classes x '
+         'v1/v2 x soft/hard AES (soft-AES v2 epilogue = largest code) x light/fast x secure; ASan+bounds build for C/C++ code, PROT_NONE guard pages directly around scratchpad, '
+         'cache, synthetic dataset (ends exactly at a guard page) and every code mapping; checksum of all code emitted before the program (SuperscalarHash routine, epilogue) before/after '
+         'each run, emitted code must end before it; API cases place input (0..4097 bytes) and the 32-byte output at guard pages / unaligned between canaries for single and batch calls. '
+         'Oracle: no fault, no sanitizer report, checksums and canaries intact, engines agree. Non-trivial: adversarial shape or maximal dataset offset; every distinct placement',
+    assumptions=COMMON_ASSUME + ['JIT-emitted code is not sanitizer-instrumented: its accesses are only caught at page granularity by the guard pages (scratchpad 2 MiB, cache 256 MiB and code buffers are page multiples, the dataset is end-aligned)'],
+    stages=[
+        dict(name='bounds', harness=H('c06', ['harness/c06_bounds.cpp'], variant='asan', ldflags=PROG_LD + GUARD_LD),
+             plan={'quick': 'bounds_prog=3200,bounds_api=1200', 'thorough': 'bounds_prog=300000,bounds_api=60000'}),
+    ],
+)
